@@ -365,6 +365,7 @@ def run_expressions(repo, tier='quick', rule='E6p'):
     it = Interp(mod, rule)
     it.repo = repo
     it.max_depth = 60
+    it.concrete_asserts = True
     problems, n = [], 0
     for text, want in expression_corpus(tier):
         n += 1
